@@ -213,6 +213,24 @@ theorem ritInc_form (ch : List (List (K × V))) (pos : Nat × Nat) (hv : RValidP
       exact ⟨ch[li - 1], List.getElem?_eq_getElem hp, by simp [List.getElem?_eq_getElem hp]⟩
     · rw [if_neg hli]; exact ⟨leaf, hl, by simp⟩
 
+/-- `r` applications of `reverse_iterator::operator--` to `rend()` -/
+theorem iterate_rdec (ch : List (List (K × V))) (hne : ∀ l ∈ ch, l ≠ []) (htot : 0 < ch.flatten.length) :
+    ∀ r, r ≤ ch.flatten.length →
+      FwdForm ch (iterN (ritDec ch) r (0, 0)) ∧ rankOf ch (some (iterN (ritDec ch) r (0, 0))) = r ∧
+        (0 < r → RValidPos ch (iterN (ritDec ch) r (0, 0))) := by
+  intro r
+  induction r with
+  | zero =>
+    intro _
+    cases ch with
+    | nil => simp at htot
+    | cons a rest => exact ⟨⟨a, rfl, Nat.zero_le _⟩, by simp [iterN, rankOf], fun h => absurd h (Nat.lt_irrefl 0)⟩
+  | succ r ih =>
+    intro h
+    obtain ⟨i1, i2, _⟩ := ih (by omega)
+    obtain ⟨j1, j2⟩ := ritDec_spec ch hne _ i1 (by omega)
+    exact ⟨rvalid_form j2, by simp only [iterN]; omega, fun _ => j2⟩
+
 end TlxVerif.C01
 
 namespace TlxVerif.C01
